@@ -1261,6 +1261,11 @@ from .c01_contracts import r9_engine_contracts, r10_model_values  # noqa: E402
 from .c01_optimizer import r11_optimizer  # noqa: E402
 from .c01_textmodel import r12_text_to_model  # noqa: E402
 
+def r13_calls_keep_their_rule(a, tier):
+    from .c01_optimizer import calls_keep_their_rule
+    return calls_keep_their_rule(a, 'C01.R13')
+
+
 RULES = [r_chain, r1_frames, r1b_semantic_failures, r1c_control_containment, r2_cst, r3_ordered_choice, r4_progress, r5_state_stack,
          r6_defines_cover_operands, r7_what_a_frame_keeps, r7b_negative_lookahead,
-         r8_leaf_protocol, r9_engine_contracts, r10_model_values, r11_optimizer, r12_text_to_model]
+         r8_leaf_protocol, r9_engine_contracts, r10_model_values, r11_optimizer, r12_text_to_model, r13_calls_keep_their_rule]
